@@ -9,13 +9,14 @@ import (
 )
 
 // adjRIBInDumpAndVerdict:
-//   (a) the Adj-RIB-In holds one path per (prefix, identifier) and does not rank them: a client registered late gets
-//       EVERY stored path of every prefix — the loop that feeds the initial dump ranges over the route's full path list
-//       (route.Paths() or a local defined by exactly that call, never a re-slice or a single element);
-//   (b) whether a path was announced to the clients is decided ONCE, when it is stored (HiddenReason); the removal
-//       side reads the recorded verdict.  Nothing reachable from the functions that tell clients about a removal may
-//       re-run the validation or write HiddenReason: loop-detection inputs (contributing ASNs, cluster IDs) change over
-//       time, and a path judged eligible when it came and ineligible when it goes is dropped without its withdrawal.
+//
+//	(a) the Adj-RIB-In holds one path per (prefix, identifier) and does not rank them: a client registered late gets
+//	    EVERY stored path of every prefix — the loop that feeds the initial dump ranges over the route's full path list
+//	    (route.Paths() or a local defined by exactly that call, never a re-slice or a single element);
+//	(b) whether a path was announced to the clients is decided ONCE, when it is stored (HiddenReason); the removal
+//	    side reads the recorded verdict.  Nothing reachable from the functions that tell clients about a removal may
+//	    re-run the validation or write HiddenReason: loop-detection inputs (contributing ASNs, cluster IDs) change over
+//	    time, and a path judged eligible when it came and ineligible when it goes is dropped without its withdrawal.
 func adjRIBInDumpAndVerdict(c *core.Ctx) {
 	p := c.P
 	const in = "routingtable/adjRIBIn"
